@@ -119,18 +119,68 @@ package sem
 //@   ensures [C03.valid] result != nil && (v.PreRelease == "" || in(preRelease, v.PreRelease)) ==> errIs(result, ErrInvalidBuild)
 
 // ---- C06 / C14: comparison -----------------------------------------------------------------------------------------
+// ---- C06: precedence of pre-release texts (SemVer 2.0.0 section 11), written from the statement ---------------------
+// in "first difference" form: two different texts, neither a prefix of the other, first differ at index i; the
+// identifiers holding i start after the last '.' before i (the same place in both) and end at the next '.' or the end
+// of the text; every identifier before them is equal, so these two decide.
+//@ pure func cmpByte(x byte, y byte) int = ite(x < y, -1, ite(x > y, 1, 0))
+//@ pure func allDigits(a bytes) bool = forall k in 0..len(a) :: isDigit(a[k])
+//@ pure func idStart(a bytes, i int) int = lastIndexByte(a[0:i], '.') + 1
+//@ pure func idLen(a bytes) int = ite(indexByte(a, '.') < 0, len(a), indexByte(a, '.'))
+//@ pure func ident(a bytes, s int) bytes = a[s:s+idLen(a[s:len(a)])]
+// two identifiers x, y that first differ at index i (i <= both lengths, not both ended):
+//   numeric ones compare numerically (they have no leading zeros, so by length and then at the first difference),
+//   a numeric one is below an alphanumeric one, alphanumeric ones compare in ASCII order (a proper prefix is below).
+//@ pure func idCmp(x bytes, y bytes, i int) int = ite(allDigits(x) && allDigits(y), ite(len(x) < len(y), -1, ite(len(x) > len(y), 1, cmpByte(x[i], y[i]))),
+//@     ite(allDigits(x), -1, ite(allDigits(y), 1, ite(i == len(x), -1, ite(i == len(y), 1, cmpByte(x[i], y[i]))))))
+// what the grammar guarantees for the identifiers compared: not empty, and a numeric one has no leading zero
+//@ pure func wfIdent(x bytes) bool = len(x) > 0 && (allDigits(x) && len(x) > 1 ==> x[0] != '0')
+// outside the claim (pinned by the library's own tests): both alphanumeric, and from the first difference on both
+// consist of digits only (a01 vs a1)
+//@ pure func pinned(x bytes, y bytes, i int) bool = !allDigits(x) && !allDigits(y) && allDigits(x[i:len(x)]) && allDigits(y[i:len(y)])
+// a below / equal / above b as -1 / 0 / 1
+//@ pure func prec11(a bytes, b bytes) int = ite(len(a) == 0, ite(len(b) == 0, 0, 1), ite(len(b) == 0, -1, ite(a == b, 0,
+//@     ite(firstDiff(a, b) == len(a), -1, ite(firstDiff(a, b) == len(b), 1,
+//@     idCmp(ident(a, idStart(a, firstDiff(a, b))), ident(b, idStart(a, firstDiff(a, b))), firstDiff(a, b) - idStart(a, firstDiff(a, b))))))))
+// the characters of pre-release texts
+//@ pure func preChars(a bytes) bool = forall k in 0..len(a) :: isDigit(a[k]) || ('a' <= a[k] && a[k] <= 'z') || ('A' <= a[k] && a[k] <= 'Z') || a[k] == '-' || a[k] == '.'
+//@ pure func claimed11(a bytes, b bytes) bool = preChars(a) && preChars(b) && (len(a) == 0 || len(b) == 0 || a == b || firstDiff(a, b) == len(a) || firstDiff(a, b) == len(b)
+//@     || (wfIdent(ident(a, idStart(a, firstDiff(a, b)))) && wfIdent(ident(b, idStart(a, firstDiff(a, b))))
+//@         && !pinned(ident(a, idStart(a, firstDiff(a, b))), ident(b, idStart(a, firstDiff(a, b))), firstDiff(a, b) - idStart(a, firstDiff(a, b)))))
+
+//@ func identifier
+//@   inline
+
+// byte-wise lexicographic order (strings.Compare), from its definition
+//@ pure func lexCmp(x bytes, y bytes) int = ite(firstDiff(x, y) < len(x) && firstDiff(x, y) < len(y), cmpByte(x[firstDiff(x, y)], y[firstDiff(x, y)]),
+//@     ite(len(x) < len(y), -1, ite(len(x) > len(y), 1, 0)))
+
 //@ func comparePreReleaseSuffix
 //@   pure
 //@   ensures [C14.range] -1 <= result && result <= 1
 //@   ensures [C14.eq] shorter == longer ==> result == 0
+//@   ensures [C06.prec] !(allDigits(shorter) && allDigits(longer)) ==> result == -lexCmp(shorter, longer)
+//@   ensures [C06.prec] allDigits(shorter) && allDigits(longer) ==> result == -lexCmp(shorter[leadRun(shorter, '0'):len(shorter)], longer[leadRun(longer, '0'):len(longer)])
+
+// the sign convention of the helpers is "second argument relative to the first"
+//@ func compareIdentifiers
+//@   pure
+//@   requires 0 <= diff && diff <= len(shorter) && diff <= len(longer) && !(diff == len(shorter) && diff == len(longer))
+//@   requires (forall k in 0..diff :: shorter[k] == longer[k]) && (diff < len(shorter) && diff < len(longer) ==> shorter[diff] != longer[diff])
+//@   ensures [C14.range] -1 <= result && result <= 1
+//@   ensures [C06.prec] wfIdent(shorter) && wfIdent(longer) && !pinned(shorter, longer, diff) ==> result == -idCmp(shorter, longer, diff)
 
 //@ func comparePreRelease
 //@   pure
 //@   requires len(shorter) <= len(longer)
 //@   ensures [C14.range] -1 <= result && result <= 1
 //@   ensures [C14.eq] shorter == longer ==> result == 0
+// the result is the comparison of the two identifiers holding the first difference; a proper prefix is below
+//@   ensures [C06.prec] firstDiff(shorter, longer) < len(shorter) ==> result == compareIdentifiers(ident(shorter, idStart(shorter, firstDiff(shorter, longer))), ident(longer, idStart(shorter, firstDiff(shorter, longer))), firstDiff(shorter, longer) - idStart(shorter, firstDiff(shorter, longer)))
+//@   ensures [C06.prec] firstDiff(shorter, longer) == len(shorter) ==> result == ite(len(shorter) == len(longer), 0, 1)
 //@   loop 0 invariant 0 <= i && i <= len(shorter)
 //@   loop 0 invariant forall k in 0..i :: shorter[k] == longer[k]
+//@   loop 0 invariant i <= firstDiff(shorter, longer)
 
 //@ func DefaultComparePreRelease
 //@   pure
@@ -138,6 +188,17 @@ package sem
 //@   ensures [C06.release] len(a) > 0 && len(b) == 0 ==> result == -1
 //@   ensures [C14.range] -1 <= result && result <= 1
 //@   ensures [C14.eq] a == b ==> result == 0
+//@   ensures [C06.prec] len(a) > 0 && len(b) > 0 ==> result == ite(len(a) > len(b), comparePreRelease(b, a), -comparePreRelease(a, b))
+
+// C06: for the texts of the claim the comparator is the order of section 11 (lemmas over the contracts above)
+//@ func lemmaC06Ordered
+//@   lemma
+//@   requires 0 < len(a) && len(a) <= len(b) && claimed11(a, b)
+//@   ensures [C06.prec] r == -prec11(a, b)
+//@ func lemmaC06Precedence
+//@   lemma
+//@   requires claimed11(a, b) && claimed11(b, a)
+//@   ensures [C06.prec] r == prec11(a, b)
 
 // three-way comparison of the cores as unsigned 64-bit numbers
 //@ pure func cmp3(a uint64, b uint64) int = ite(a > b, 1, ite(a < b, -1, 0))
@@ -224,4 +285,19 @@ func lemmaC14Next(v Ver) (int, int, int) {
 
 func lemmaC14LatestNeverLower(v, w Ver) (l Ver, c int) {
 	return v.Latest(w), v.Compare(w)
+}
+
+func lemmaC06Ordered(a, b string) (r int) {
+	return comparePreRelease(a, b)
+}
+
+func lemmaC06Precedence(a, b string) (r int) {
+	if len(a) > 0 && len(b) > 0 {
+		if len(a) > len(b) {
+			lemmaC06Ordered(b, a)
+		} else {
+			lemmaC06Ordered(a, b)
+		}
+	}
+	return DefaultComparePreRelease(a, b)
 }
